@@ -1,8 +1,150 @@
-import BddVerif.Drive.Util
-/-! Driver for C13 — stub, to be written. -/
-namespace B.Drive.C13
-open B B.Drive
+import BddVerif.Drive.C12
+import BddVerif.Gen.OpTables
+/-!
+Driver for C13 (deserialisers and `validate()` are safe on arbitrary input). Model side: `readText`,
+`readBytes`, `fromNodes`, `validate`, `evalIn` of `Model/Serial.lean` and `applyWithFlip` for `and(true)`.
+Predicate on the OBSERVED output, independent of the model:
 
-def handle (key : String) (_ins _obs : List String) : Verdict := Verdict.bad ("key " ++ key)
+* the outcome is `ok` or `err`, never `panic`/`hang` (readers, `from_nodes`, `validate`);
+* a normally formatted text (`|N,N,N|…|`, `N = 0 | [1-9][0-9]*`) that is accepted re-serialises to itself;
+* whatever `from_nodes` accepts or `validate` passes satisfies `wfoB` (sound for `WFo` by `wfoB_sound`), for
+  `validate` every decision node is reachable from the root; `eval_in` terminates on all valuations and
+  equals `evalF`; `exact_cardinality` = number of satisfying valuations; `and(true)` neither panics nor
+  changes the function.
+-/
+namespace B.Drive.C13
+open B B.Drive B.Serial B.Drive.C12
+
+def isNormalNum (s : String) : Bool :=
+  match s.toList with
+  | [] => false
+  | ['0'] => true
+  | c :: cs => '1' ≤ c && c ≤ '9' && cs.all (fun d => '0' ≤ d && d ≤ '9')
+
+/-- `|N,N,N|…|` (at least the leading bar), numbers without sign or leading zero -/
+def isNormalText (s : String) : Bool :=
+  match s.splitOn "|" with
+  | "" :: rest =>
+    (match rest.reverse with
+     | "" :: recs => recs.all fun r => match r.splitOn "," with
+        | [a, b, c] => isNormalNum a && isNormalNum b && isNormalNum c
+        | _ => false
+     | _ => false)
+  | _ => false
+
+/-- every decision node is reachable from the root (worklist with fuel) -/
+def reachAll (A : Arr) : Bool := Id.run do
+  let mut seen : Array Bool := Array.replicate A.size false
+  let mut work : List Nat := [A.size - 1]
+  for _ in [0:2 * A.size + 2] do
+    match work with
+    | [] => break
+    | p :: rest =>
+      work := rest
+      if p ≥ 2 && p < A.size && !seen[p]! then
+        seen := seen.set! p true
+        let nd := A[p]!
+        work := nd.low :: nd.high :: work
+  return (List.range A.size).all fun p => p < 2 || seen[p]!
+
+def bitsOf (A : Arr) (n : Nat) : String :=
+  String.ofList ((ttOf A n).toList.map fun b => if b then '1' else '0')
+
+/-- model of the harness's `accepted_fields`: evals, count, and(true) -/
+def modelAccepted (A : Arr) : List String :=
+  match A[0]? with
+  | none => ["panic", "panic", "panic"]
+  | some n0 =>
+    let n := n0.var
+    let results := if n ≤ 16 then (List.range (2 ^ n)).map fun i =>
+        evalIn A (Array.ofFn (n := n) fun k => valOfIndex n i k.val) (n + 1) else []
+    let render (rs : List (Option (Outcome Bool))) : String :=
+      if rs.any (fun r => match r with | some (.panic _) => true | _ => false) then "panic"
+      else if rs.any (·.isNone) then "hang"
+      else String.ofList (rs.map fun r => match r with | some (.ok true) => '1' | _ => '0')
+    let evals := if n ≤ 6 then render results else "-"
+    let count := if n ≤ 16 then
+        (let r := render results
+         if r == "panic" || r == "hang" then r else toString (r.toList.filter (· == '1')).length) else "-"
+    let and := showArr (applyWithFlip A (mkTrue n) Gen.and_ none none none)
+    [evals, count, and]
+
+def validateField (A : Arr) : String :=
+  match validate A with
+  | none => "vhang"
+  | some (.ok _) => "vok"
+  | some (.err _) => "verr"
+  | some (.panic _) => "vpanic"
+
+/-- clauses about an accepted value, on the observed fields -/
+def acceptedClauses (A : Arr) (needReach : Bool) (evals count and : String) : List (Option String) :=
+  let n := numVars A
+  let tt := if n ≤ 12 then bitsOf A n else ""
+  [ req (A.size > 0 && wfoB A n) "accepted-value-not-well-formed",
+    req (!needReach || reachAll A) "validate-ok-with-unreachable-node",
+    req (evals != "panic" && evals != "hang") ("eval_in:" ++ evals),
+    req (evals == "-" || evals == "noeval" || evals == tt) "eval_in-differs-from-evalF",
+    req (count != "panic" && count != "hang") ("exact_cardinality:" ++ count),
+    req (n > 12 || count == "noeval" || count == toString (tt.toList.filter (· == '1')).length) "count-differs-from-brute-force",
+    req (and != "panic" && and != "hang") ("and(true):" ++ and),
+    req (n > 12 || and == "noeval" || (match parseArrE? and with
+        | some R => bitsOf R n == tt
+        | none => false)) "and(true)-changes-the-function" ]
+
+def handle (key : String) (ins obs : List String) : Verdict :=
+  match key, ins, obs with
+  | "C13.text", [data], [kind, bdd, reser, v, evals, count, and] =>
+    let bytes := unhex data
+    let mo := readText bytes
+    let model := match mo with
+      | .ok A =>
+        let mv := validateField A
+        " ".intercalate (["ok", showArr A, String.ofList (writeText A), mv] ++ (if mv == "vok" then modelAccepted A else ["-", "-", "-"]))
+      | o => s!"{kindOf o} ~ ~ - - - -"
+    let asText : Option String := (utf8Decode bytes).map String.ofList
+    let normal := match asText with | some t => isNormalText t | none => false
+    let fail := firstFail ([
+      req (kind == "ok" || kind == "err") ("outcome:" ++ kind),
+      req (!(normal && kind == "ok") || some reser == asText) "face-value",
+      req (v == "vok" || v == "verr" || v == "-" || v == "noeval") ("validate:" ++ v)] ++
+      (if v == "vok" then match parseArrE? bdd with
+        | some A => acceptedClauses A true evals count and
+        | none => [some "unparsable-accepted-value"] else []))
+    { agree := model == " ".intercalate obs, model, fail,
+      nontrivial := kind == "ok" && bdd.length > 14,
+      tags := ["text", kind, v] ++ (if normal then ["normal"] else []) ++ (if asText.isNone then ["invalid-utf8"] else []) }
+  | "C13.bytes", [data], [kind, bdd, v, evals, count, and] =>
+    let bytes := unhex data
+    let mo := readBytes bytes
+    let model := match mo with
+      | .ok A =>
+        let mv := validateField A
+        " ".intercalate (["ok", showArr A, mv] ++ (if mv == "vok" then modelAccepted A else ["-", "-", "-"]))
+      | o => s!"{kindOf o} ~ - - - -"
+    let fail := firstFail ([
+      req (kind == "ok" || kind == "err") ("outcome:" ++ kind),
+      req (kind != "ok" || (parseArrE? bdd).any (fun A => A.size == bytes.length / 10)) "one-node-per-ten-bytes",
+      req (v == "vok" || v == "verr" || v == "-" || v == "noeval") ("validate:" ++ v)] ++
+      (if v == "vok" then match parseArrE? bdd with
+        | some A => acceptedClauses A true evals count and
+        | none => [some "unparsable-accepted-value"] else []))
+    { agree := model == " ".intercalate obs, model, fail,
+      nontrivial := bytes.length ≥ 20, tags := ["bytes", kind, v, if bytes.length % 10 == 0 then "whole-records" else "partial-record"] }
+  | "C13.nodes", [arr], [kind, bdd, v, evals, count, and] =>
+    match parseArrE? arr with
+    | some D =>
+      let mo := fromNodes D
+      let model := match mo with
+        | .ok A => " ".intercalate (["ok", showArr A, validateField A] ++ modelAccepted A)
+        | o => s!"{kindOf o} ~ - - - -"
+      let fail := firstFail ([
+        req (kind == "ok" || kind == "err") ("outcome:" ++ kind),
+        req (kind != "ok" || bdd == arr) "from_nodes-alters-the-data",
+        req (v == "vok" || v == "verr" || v == "-" || v == "noeval") ("validate:" ++ v)] ++
+        (if kind == "ok" then acceptedClauses D (v == "vok") evals count and else []))
+      { agree := model == " ".intercalate obs, model, fail,
+        nontrivial := D.size > 2, tags := ["nodes", kind, v, s!"size{D.size}"] }
+    | none => Verdict.bad "args"
+  | _, _, _ => Verdict.bad ("key " ++ key)
 
 end B.Drive.C13
